@@ -1055,4 +1055,37 @@ example : exCfg.clampIdx.length = 1 ∧ (0 : Nat) ≤ exCfg.clampIdx.length ∧ 
     (optimize (exCfg.addClampAt 0 0 (fun q => q)) exO exConv 1 (fun _ => ⟨fun _ => ([], 0), fun _ _ => ([1, 0], false)⟩)
       ((optimize exCfg exO exConv 2 exSched exSt0).st.addPrmAt 0 0)).st.prm = [0, 2] := by decide
 
+/-! ### round 6d: an exception other than `ValueError` raised by a clamp function inside the minimiser -/
+
+/-- **Mesh / sketch after a call.** `backport` is the last statement of `optimize`: when an exception propagated the
+    vertices are exactly the ones before the call, otherwise exactly the optimiser's final points. -/
+theorem T_C13_abort_mesh (verts final : List P) (h : verts.length = final.length) :
+    afterCall verts final true = verts ∧ afterCall verts final false = final :=
+  ⟨rfl, T_C13_backport_mesh verts final h⟩
+
+/-- **The grid the exception leaves behind** (raised in evaluation `m` of the `s`-th `optimize_clamp` of iteration
+    `it`): its points are those of a rest state — every clamped vertex on its clamp function at the parameters that were
+    last *applied*, every follower on its link — only the raising clamp holds parameters it never applied; points
+    that are neither clamped nor followers of a clamped leader are as before the call. (The quality may be worse than
+    before: nothing is rolled back. The mesh does not see it, `T_C13_abort_mesh`.) -/
+theorem T_C13_abort_state [LinearOrder Q] [LinearOrder S] {cfg : Cfg P Prm} {n : Nat} (hwf : WF cfg n) (o : Oracles P Q)
+    (conv : List (Q × Q) → Bool) (sched : Nat → IterSched Prm S) (st : St P Prm) (hr : Rest cfg n st) (it s m : Nat) :
+    (optimizeAbort cfg o conv sched st it s m).1.pts = (optimizeAbortPre cfg o conv sched st it s m).st.pts ∧
+      Rest cfg n (optimizeAbortPre cfg o conv sched st it s m).st ∧
+      (optimizeAbort cfg o conv sched st it s m).1.pts.length = st.pts.length ∧
+      ∀ k, ¬ movable cfg k → (optimizeAbort cfg o conv sched st it s m).1.pts[k]? = st.pts[k]? := by
+  have h1 := optimizeAbortPre_pres (preserved_cons (o := o) hwf (fun _ => True)) conv sched
+    (fun _ => ⟨fun _ _ _ => trivial, fun _ _ _ _ => trivial⟩) st ⟨hr.1, hr.2.1, fun j _ => hr.2.2 j⟩ it s m
+  have h2 := optimizeAbortPre_pres (preserved_frame (cfg := cfg) (o := o) st) conv sched
+    (fun _ => ⟨fun _ _ _ => trivial, fun _ _ _ _ => trivial⟩) st ⟨rfl, fun _ _ => rfl⟩ it s m
+  exact ⟨rfl, ⟨h1.1, h1.2.1, fun j => h1.2.2 j trivial⟩, h2.1, h2.2⟩
+
+/-- on the instance: the clamp function raises in the third evaluation of the first `optimize_clamp` (parameters 2):
+    the grid stays at the second evaluation (vertex at 3, follower at 13, quality 1 instead of 9 → 0), the clamp
+    holds the 2 it never applied -/
+example : (optimizeAbort exCfg exO exConv exSched exSt0 0 0 2).1.pts = [0, 3, 13] ∧
+    (optimizeAbort exCfg exO exConv exSched exSt0 0 0 2).1.prm = [2] ∧
+    (optimizeAbort exCfg exO exConv exSched exSt0 0 0 2).2 = true ∧
+    afterCall [0, 5, 15] (optimizeAbort exCfg exO exConv exSched exSt0 0 0 2).1.pts true = [0, 5, 15] := by decide
+
 end CBV.C13
